@@ -260,7 +260,7 @@ theorem wsub_eq {a b : Nat} (hb : b ≤ a) (ha : a < W) : wsub a b = a - b := by
   unfold wsub
   have h1 : b % W = b := Nat.mod_eq_of_lt (by omega)
   rw [h1]
-  have : a + W - b = (a - b) + W := by omega
+  have : W - b + a = (a - b) + W := by omega
   rw [this, Nat.add_mod_right]
   exact Nat.mod_eq_of_lt (by omega)
 
